@@ -247,7 +247,7 @@ INV_FRAME_H = ["!hazard ==> term@.lin() >= start", "!hazard ==> forall|p: int| p
 
 UNIT = Unit(
     name="draw_to_term",
-    properties=["C01", "C03", "C18", "C19"],
+    properties=["C01", "C02", "C03", "C18", "C19"],
     prelude=["gterm", "realf"],
     rlimit=60,
     trusted=[
